@@ -211,11 +211,59 @@ def build_bb06():
         print("wrote", nm)
 
 
+def build_attr_forgeries():
+    """Blocks whose signature over the signed attributes is GENUINE (made with the signer's key) but whose attributes do not
+    bind the .SF: the messageDigest attribute is missing, has an empty value set, holds the digest of other content, a prefix of
+    the right digest, or a digest made with another algorithm than the one declared.  None may yield a certificate.
+    gen-handmade-ec-valid-attrs.apk is the valid twin made with the same key and certificate."""
+    from asn1crypto import algos, cms, x509 as ax509
+    key, cert = mk_signer("ec", "handmade-ec")
+    acert = ax509.Certificate.load(cert.public_bytes(serialization.Encoding.DER))
+    right = hashlib.sha256(SF_FIXED).digest()
+
+    def block(attr_list):
+        attrs = cms.CMSAttributes(attr_list)
+        to_sign = b"\x31" + attrs.dump()[1:]
+        sig = key.sign(to_sign, ec.ECDSA(hashes.SHA256()))
+        si = cms.SignerInfo({
+            "version": "v1",
+            "sid": cms.SignerIdentifier({"issuer_and_serial_number": cms.IssuerAndSerialNumber(
+                {"issuer": acert.issuer, "serial_number": acert.serial_number})}),
+            "digest_algorithm": algos.DigestAlgorithm({"algorithm": "sha256"}),
+            "signed_attrs": attrs,
+            "signature_algorithm": algos.SignedDigestAlgorithm({"algorithm": "sha256_ecdsa"}),
+            "signature": sig,
+        })
+        sd = cms.SignedData({
+            "version": "v1",
+            "digest_algorithms": [algos.DigestAlgorithm({"algorithm": "sha256"})],
+            "encap_content_info": {"content_type": "data"},
+            "certificates": [acert],
+            "signer_infos": [si],
+        })
+        return cms.ContentInfo({"content_type": "signed_data", "content": sd}).dump()
+
+    ct = cms.CMSAttribute({"type": "content_type", "values": ["data"]})
+
+    def md(*values):
+        return cms.CMSAttribute({"type": "message_digest", "values": list(values)})
+    _apk_with_block("gen-handmade-ec-valid-attrs.apk", "CERT", block([ct, md(right)]))
+    _apk_with_block("gen-forged-attrs-empty-digest-set.apk", "CERT", block([ct, md()]))
+    _apk_with_block("gen-forged-attrs-no-digest-attribute.apk", "CERT", block([ct]))
+    _apk_with_block("gen-forged-attrs-digest-of-other-content.apk", "CERT", block([ct, md(hashlib.sha256(b"other").digest())]))
+    _apk_with_block("gen-forged-attrs-digest-prefix-only.apk", "CERT", block([ct, md(right[:16])]))
+    _apk_with_block("gen-forged-attrs-digest-other-algorithm.apk", "CERT", block([ct, md(hashlib.sha1(SF_FIXED).digest())]))
+    _apk_with_block("gen-forged-attrs-empty-digest-value.apk", "CERT", block([ct, md(b"")]))
+
+
 if __name__ == "__main__":
     os.makedirs(OUT, exist_ok=True)
     import sys
     if "--forged" in sys.argv:
         build_forged()
+        raise SystemExit(0)
+    if "--attrs" in sys.argv:
+        build_attr_forgeries()
         raise SystemExit(0)
     if "--bb06" in sys.argv:
         build_bb06()
